@@ -364,3 +364,141 @@ func runInprocScenario(c *Ctx, tr transport.Transport, socks []mangos.Socket, sc
 		_ = p.Close()
 	}
 }
+
+// An established inproc connection (inproc.Send / Recv / Close) against Model/InprocPipe.lean, machine `m.ipipe`: Sends
+// and Recvs at both ends run in goroutines, results are collected at quiescence after every step.  End 0 is the
+// accepting side, end 1 the dialling side; `dir` is the end a message is sent from.
+func runInprocPipes(c *Ctx) {
+	n := 30
+	if c.Thorough() {
+		n = 800
+	}
+	tr := transport.GetTransport("inproc")
+	sp, _ := pair.NewSocket()
+	defer sp.Close()
+	for sc := 0; sc < n; sc++ {
+		addr := fmt.Sprintf("inproc://verif-ipipe-%d-%d", c.Seed, sc)
+		l, err1 := tr.NewListener(addr, sp)
+		d, err2 := tr.NewDialer(addr, sp)
+		if err1 != nil || err2 != nil || l.Listen() != nil {
+			continue
+		}
+		accCh := make(chan transport.Pipe, 1)
+		go func() { p, _ := l.Accept(); accCh <- p }()
+		time.Sleep(time.Millisecond)
+		cp, err := d.Dial()
+		spipe := <-accCh
+		if err != nil || spipe == nil {
+			_ = l.Close()
+			continue
+		}
+		ends := []transport.Pipe{spipe, cp}
+		c.T.Line("inproc pipe new", "m.ipipe new", "-")
+		type res struct {
+			call int
+			obs  string
+		}
+		resCh := make(chan res, 64)
+		parked := 0
+		var hist []string
+		line := func(op, pre string) {
+			if !vp.QuiesceT(2 * time.Second) {
+				time.Sleep(20 * time.Millisecond)
+			}
+			var rets []res
+		drain:
+			for {
+				select {
+				case r := <-resCh:
+					rets = append(rets, r)
+				default:
+					break drain
+				}
+			}
+			sort.Slice(rets, func(i, j int) bool { return rets[i].call < rets[j].call })
+			toks := []string{}
+			if pre != "" {
+				toks = append(toks, pre)
+			}
+			for _, r := range rets {
+				parked--
+				toks = append(toks, fmt.Sprintf("ret:%d:%s", r.call, r.obs))
+			}
+			obs := strings.Join(toks, " ")
+			if obs == "" {
+				obs = "-"
+			}
+			hist = append(hist, op+" => "+obs)
+			shape := strings.Join(strings.FieldsFunc(obs, func(r rune) bool { return (r >= '0' && r <= '9') || (r >= 'a' && r <= 'f' && false) }), "")
+			if i := strings.Index(shape, "msg:"); i >= 0 {
+				shape = shape[:i] + "msg"
+			}
+			c.Class("inproc pipe "+strings.Fields(op)[0]+" "+shape, true)
+			c.T.Line("inproc pipe "+strings.Fields(op)[0], "m.ipipe "+op, obs)
+		}
+		call := 0
+		closed := false
+		steps := 6 + c.R.Intn(16)
+		for st := 0; st < steps; st++ {
+			k := c.R.Intn(20)
+			switch {
+			case k < 9 && parked < 6:
+				dir := c.R.Intn(2)
+				call++
+				parked++
+				m := mangos.NewMessage(16)
+				if c.R.Intn(2) == 0 {
+					m.Header = append(m.Header, 0x80, byte(sc), byte(call), 1)
+				}
+				m.Body = append(m.Body, c.R.Bytes(c.R.Intn(5))...)
+				h, b := vp.Hex(m.Header), vp.Hex(m.Body)
+				keepH, keepB := append([]byte{}, m.Header...), append([]byte{}, m.Body...)
+				cl := call
+				go func() {
+					err := ends[dir].Send(m)
+					o := "ok"
+					if err != nil {
+						o = iprocErr(err)
+					}
+					if !bytes.Equal(m.Header, keepH) || !bytes.Equal(m.Body, keepB) {
+						o = "sender-message-changed"
+					}
+					m.Free()
+					resCh <- res{cl, o}
+				}()
+				line(fmt.Sprintf("send %d %d %s %s", dir, cl, h, b), "")
+			case k < 18 && parked < 6:
+				dir := c.R.Intn(2)
+				call++
+				parked++
+				cl := call
+				go func() {
+					m, err := ends[1-dir].Recv()
+					if err != nil {
+						resCh <- res{cl, iprocErr(err)}
+						return
+					}
+					o := "msg:" + vp.Hex(m.Body)
+					if len(m.Header) != 0 {
+						o = "msg-with-header:" + vp.Hex(m.Header)
+					}
+					m.Free()
+					resCh <- res{cl, o}
+				}()
+				line(fmt.Sprintf("recv %d %d", dir, cl), "")
+			case k >= 18 && (st > 3 || closed):
+				e := c.R.Intn(2)
+				_ = ends[e].Close()
+				closed = true
+				line(fmt.Sprintf("close %d", e), "res:ok")
+			}
+		}
+		_ = ends[0].Close()
+		line("close 0", "res:ok")
+		if parked != 0 {
+			c.Violate(fmt.Sprintf("inproc pipe: %d Send / Recv call(s) still blocked after the connection was closed", parked), map[string]interface{}{"history": hist})
+		}
+		_ = ends[1].Close()
+		_ = l.Close()
+	}
+}
